@@ -123,7 +123,7 @@ def run(rep, ctx):
                               r"mp::internal::SuffixValueCounter::.*", r"mp::BasicSuffix::VisitValues", r"mp::Suffix::VisitValues"],
                  var=[r"mp::internal::SUFFIX_KIND_MASK"], enum=[r"mp::suf::.*", r"mp::internal::.*"], repo=repo),
             dict(unit="src/sol.cc", fn=[r"mp::internal::WriteMessage"], repo=repo),
-            dict(unit=RU, closure=1, closure_roots=r"SOLReader2::(gsufread|sufheadcheck)$", fn=[r"mp::SOLReader2::(ReadSOLFile|gsufread|sufheadcheck)", r"mp::(Lget|decstring|Read)", r"mp::[a-z_0-9]+", r"mp::VecReader::ReadNext"],
+            dict(unit=RU, closure=1, closure_roots=r"SOLReader2::(gsufread|sufheadcheck)$", fn=[r"mp::SOLReader2::(ReadSOLFile|gsufread|bsufread|sufheadcheck)", r"mp::(Lget|decstring|Read)", r"mp::[a-z_0-9]+", r"mp::VecReader::ReadNext"],
                  repo=repo)]
     F = Facts(export_many(jobs))
     rep.note_units([WU, "src/sol.cc", RU])
@@ -393,6 +393,20 @@ def run(rep, ctx):
              "the reader treats option[1] == 3 as the vbtol form (count reduced by 2, an extra real line after the counts); the writer "
              "prints the options verbatim and never a vbtol line: such a file is misparsed")
     g1.check(lo == 3 and hi == 9, "reader-count-range", short_loc(rng[0].get("l")) if rng else "", "reader accepts 3..9 options", "range %s..%s" % (lo, hi))
+
+    # a suffix's name and table are read into a scratch buffer that must start zero-filled for every suffix (the readers rely on
+    # it for a missing table, an unterminated last table line and binary strings): the scratch object is created per suffix
+    for g_ in [x for x in funcs if x.qn in ("mp::SOLReader2::gsufread", "mp::SOLReader2::bsufread")]:
+        chk_ = [n for n in g_.walk() if n["k"] == "CXXMemberCallExpr" and (n.get("callee") or "").endswith("::sufheadcheck")]
+        for n in chk_[:1]:
+            refs_ = [x for a_ in call_args(n) for x in walk(a_) if x["k"] == "DeclRefExpr" and x.get("dk") == "Var"]
+            vd_ = [v for v in g_.walk() if v["k"] == "VarDecl" and refs_ and v.get("declId") == refs_[0].get("declId")]
+            lp_ = g_.enclosing(n, ("ForStmt", "WhileStmt", "DoStmt"))
+            fresh = bool(vd_) and lp_ is not None and any(a_["i"] == lp_["i"] for a_ in g_.ancestors(vd_[0]))
+            emptied = any(c["k"] == "CXXMemberCallExpr" and (c.get("callee") or "").split("::")[-1] in ("clear", "assign") and "xp" in render(c) for c in SH.walk())
+            t2.check(fresh or emptied, "suffix-scratch-fresh|%s" % g_.name, short_loc(n.get("l")),
+                     "%s: the scratch of a suffix is created for that suffix (zero-filled)" % g_.name,
+                     "%s: the scratch object outlives one suffix and is only resized: a later suffix is read back with bytes of an earlier one in its table or name" % g_.name)
 
     # ---- F1 ---------------------------------------------------------------------------
     f1 = rep.rule("C05.F1", "FLOW", "doubles are printed with >= 16 significant digits, integers with '{}'", floor=10)
